@@ -70,6 +70,13 @@ Example C08_nonvacuous :
   Interleave (events_from 0 l) (events_from 2 r) [(2%nat, [3]); (0%nat, [1]); (1%nat, [2])].
 Proof. split; [reflexivity|]. cbn. apply IL_right. apply IL_left. apply IL_left. constructor. Qed.
 
+(* the functions of the modelled source are exactly the functions the model was written against
+   (gen/GenApi.v is regenerated from /repo on every run; see Model/ApiSurface.v) *)
+From V Require gen.GenApi Model.ApiSurface.
+Theorem C08_api_join : GenApi.api_join = ApiSurface.expected_join.
+Proof. reflexivity. Qed.
+
+Print Assumptions C08_api_join.
 Print Assumptions C08_halves_disjoint.
 Print Assumptions C08_interleave_irrelevant.
 Print Assumptions C08_split_node_schedule_independent.
